@@ -2,11 +2,13 @@ package ops
 
 import (
 	"fmt"
+	"sort"
 	"strings"
 	"time"
 
 	"gorm.io/gorm"
 
+	"verif/sim/core"
 	"verif/sim/env"
 	"verif/sim/fam"
 	"verif/sim/simdrv"
@@ -211,20 +213,65 @@ func RunMulti(o env.Options, fs []*Fault, action HookAction, do func(e *env.Env)
 	return sr, nil
 }
 
-// TraceHashParts renders the run for hashing (no pointers, no sequence numbers).
+// TraceHashParts renders the run for hashing (no pointers, no sequence
+// numbers).  gorm iterates Go maps in a few places (the association deletes of
+// one operation, the associations of one record), so the order of some
+// statements and hooks legitimately varies between two executions of the same
+// case: the rendering is therefore the sorted multiset of driver events and of
+// hook invocations plus the outcome.
 func (sr *SingleRun) TraceHashParts() []string {
-	var parts []string
+	var evs, hooks []string
 	for _, ev := range sr.Events {
 		if ev.Task < 0 {
-			continue // asynchronous goroutines (database/sql watchers): not part of the ordered trace
+			continue // asynchronous goroutines (database/sql watchers): not part of the trace
 		}
-		parts = append(parts, ev.Kind+" "+ev.SQL+" "+strings.Join(ev.Args, ",")+" "+ev.Fault+" "+fmt.Sprint(ev.Err != ""))
+		evs = append(evs, ev.Kind+" "+ev.SQL+" "+strings.Join(ev.Args, ",")+" "+ev.Fault+" "+fmt.Sprint(ev.Err != ""))
 	}
 	for _, h := range sr.Hooks {
-		parts = append(parts, "hook "+h.Model+"."+h.Hook+" "+fmt.Sprint(h.InTx)+" "+fmt.Sprint(h.Err != ""))
+		hooks = append(hooks, "hook "+h.Model+"."+h.Hook+" "+fmt.Sprint(h.InTx)+" "+fmt.Sprint(h.Err != ""))
 	}
+	sort.Strings(evs)
+	sort.Strings(hooks)
+	parts := append(evs, hooks...)
 	parts = append(parts, fmt.Sprint(sr.Res.Err != nil), fmt.Sprint(sr.Res.RowsAffected))
 	return parts
+}
+
+// FaultedHash identifies one faulted run by what is deterministic about it: the
+// fault-free trace of its case, the fault, and the outcome.  (The statements
+// gorm issues before reaching the faulted one may legitimately differ between
+// two executions, see TraceHashParts.)
+func FaultedHash(baseHash, fault string, sr *SingleRun, extra ...string) string {
+	state := "other"
+	switch {
+	case sr.DumpErr != nil:
+		state = "dump-error"
+	case sr.D1 == sr.D0:
+		state = "unchanged"
+	}
+	parts := []string{baseHash, fault, fmt.Sprint(sr.Res.Err != nil), state, sr.Leak()}
+	return coreHash(append(parts, extra...)...)
+}
+
+// SortFaults puts fault sites into a canonical order (independent of the order
+// in which gorm happened to issue commutative statements), so that a seeded
+// sample of sites is the same in every execution of a case.
+func SortFaults(fs []Fault) {
+	key := func(f Fault) string {
+		if f.Hook != nil {
+			return fmt.Sprintf("h|%s|%s|%06d", f.Hook.Model, f.Hook.Hook, f.Hook.Occ)
+		}
+		d := f.Drv
+		return fmt.Sprintf("d|%s|%s|%06d|%s|%d|%d", d.Kind, d.SQL, d.Occ, d.Type, d.Burst, d.Row)
+	}
+	sort.SliceStable(fs, func(i, j int) bool { return key(fs[i]) < key(fs[j]) })
+	for i := range fs {
+		if fs[i].Hook != nil {
+			fs[i].Hook.ID = i + 1
+		} else {
+			fs[i].Drv.ID = i + 1
+		}
+	}
 }
 
 // Leak describes resources left behind, or "".
@@ -326,3 +373,5 @@ func HookSites(hooks []HookEvent, nextID *int) []Fault {
 	}
 	return out
 }
+
+func coreHash(parts ...string) string { return core.Hash(parts...) }
